@@ -131,6 +131,24 @@ fn feedback_families_x(th: bool, last_pos: &[Op], oracles: Vec<Oracle>, full: bo
     pc.extend(depth1(last_pos));
     pc.extend(connectable_pipelines(false));
     fams.push((Family { name: "user code inside Item::clone pushes into the source during the delivery".into(), pipelines: pc, worlds: Arc::new(wc), oracles: oracles.clone() }, 1));
+    // user code inside an operator's function: map's f (a predicate, an accumulator, a selector ...)
+    // pushes a further event into the source before it returns its result
+    let mut wf = vec![];
+    for fed in [Ev::C, Ev::E(6), Ev::n(9)] {
+      for k in [SrcKind::Hot, SrcKind::Subject, SrcKind::BehaviorSubject, SrcKind::ReplaySubject] {
+        for first in [1i64, 2] {
+          wf.push(World { srcs: vec![k.clone()], acts: vec![Act::Sub(0), Act::EmitFnFeed(0, Ev::n(first), fed.clone()), Act::Emit(0, Ev::n(3)), Act::EmitFnFeed(0, Ev::n(2), Ev::C), Act::Emit(0, Ev::n(1))] });
+          wf.push(World { srcs: vec![k.clone()], acts: vec![Act::Sub(0), Act::Emit(0, Ev::n(first)), Act::EmitFnFeed(0, Ev::n(3), fed.clone()), Act::Emit(0, Ev::n(1))] });
+        }
+      }
+    }
+    let has_fn = |o: &Op| matches!(o, Op::Map(_) | Op::Filter(_) | Op::Tap | Op::Scan | Op::SkipWhile(_) | Op::TakeWhile(_) | Op::All(_) | Op::Reduce | Op::DematInBand(..) | Op::GroupByParity | Op::GroupByParityFlat | Op::GroupByParityDeferred | Op::RetryWhen(_) | Op::OnErrorResumeNext(_) | Op::FlatMap(_));
+    let fn_ops: Vec<Op> = last_pos.iter().filter(|o| has_fn(o)).cloned().collect();
+    let red_fn: Vec<Op> = reduced_ops().into_iter().filter(|o| has_fn(o)).collect();
+    let mut pf = depth1(&fn_ops);
+    pf.extend(depth2(&red_fn, &reduced_ops()));
+    pf.extend(depth2(&reduced_ops(), &red_fn));
+    fams.push((Family { name: "user code inside an operator's function pushes into the source before it returns".into(), pipelines: pf, worlds: Arc::new(wf), oracles: oracles.clone() }, 2));
   }
   // two hot inputs of a combining operator; the callback feeds either of them
   let mut w2 = vec![];
@@ -348,6 +366,17 @@ pub fn check(prop: &str, tier: &str) -> Option<Report> {
       let mut fams = multi_families(th, false, vec![Oracle::Functional]);
       // the same sequential orders produced by feedback: the subscriber's callback pushes the next event
       fams.extend(feedback_families(th, &[], vec![Oracle::Functional]).into_iter().skip(2));
+      // switch_on_next: no statement fixes its full function, its name fixes one thing - after the
+      // switch nothing of the first input is delivered. Sequential interleavings and feedback.
+      {
+        let sw = vec![Node::opx(Op::SwitchOnNext, Node::Src(0), vec![Node::Src(1)]), Node::op(Op::Tap, Node::opx(Op::SwitchOnNext, Node::Src(0), vec![Node::Src(1)]))];
+        for (f, d) in multi_families(th, false, vec![Oracle::Switch]).into_iter().filter(|(f, _)| f.worlds.first().map_or(false, |w| w.srcs.len() == 2)).take(1) {
+          fams.push((Family { name: format!("switch_on_next: {}", f.name), pipelines: sw.clone(), worlds: f.worlds.clone(), oracles: vec![Oracle::Switch] }, d));
+        }
+        if let Some((f, d)) = feedback_families_x(th, &[], vec![Oracle::Switch], false).into_iter().last() {
+          fams.push((Family { name: format!("switch_on_next: {}", f.name), pipelines: sw.clone(), worlds: f.worlds.clone(), oracles: vec![Oracle::Switch] }, d));
+        }
+      }
       // utils::ready_set_go: subscribe first, then run the action that emits into the source
       let rsg: Vec<Node> = wf_scripts(&[1, 2], 3, &[Ending::Complete, Ending::Error, Ending::Silent])
         .into_iter()
@@ -524,6 +553,14 @@ pub fn check(prop: &str, tier: &str) -> Option<Report> {
           .map(|x| World { srcs: x.srcs.clone(), acts: x.acts.iter().map(|a| if let Act::UsingDrop(r) = a { Act::UsingDropUnwinding(*r) } else { a.clone() }).collect() })
           .collect();
         w.extend(unwinding);
+        // ... and unsubscribe() called on one copy of the Subscription while another copy sits under a guard
+        let guarded: Vec<World> = w
+          .iter()
+          .filter(|x| x.acts.iter().any(|a| matches!(a, Act::UsingDrop(_))))
+          .step_by(if th { 1 } else { 3 })
+          .map(|x| World { srcs: x.srcs.clone(), acts: x.acts.iter().map(|a| if let Act::UsingDrop(r) = a { Act::UnsubGuarded(*r) } else { a.clone() }).collect() })
+          .collect();
+        w.extend(guarded);
       } else {
         w.extend(lib_worlds(1));
       }
@@ -579,6 +616,38 @@ pub fn check(prop: &str, tier: &str) -> Option<Report> {
       fams.push((Family { name: "depth 2, self-ending operator above".into(), pipelines: depth2(&singles_noend, &d1_end), worlds: w.clone(), oracles: oracle.clone() }, 2));
       fams.push((Family { name: "depth 2, other".into(), pipelines: depth2(&single, &d1_other), worlds: w_noend.clone(), oracles: oracle.clone() }, 2));
       fams.push((Family { name: "depth 2, self-ending operator below".into(), pipelines: depth2(&d1_end, &singles_noend), worlds: w_noend.clone(), oracles: oracle.clone() }, 2));
+      // an input that is subscribed with a subscriber that has already ended: the first input of a combining
+      // operator ends the stream synchronously, the second one is a Subject / ref_count() / replay() pipeline
+      // (which must not keep - or connect for - a subscriber that can never unsubscribe again)
+      {
+        let mut wd = vec![];
+        for first in [vec![Ev::E(5)], vec![Ev::n(1), Ev::E(5)], vec![Ev::C], vec![Ev::n(1), Ev::C]] {
+          for k in [SrcKind::Hot, SrcKind::Subject, SrcKind::BehaviorSubject, SrcKind::ReplaySubject] {
+            for unsub in [false, true] {
+              let mut acts = vec![Act::Sub(0), Act::Emit(1, Ev::n(11))];
+              if unsub {
+                acts.push(Act::Unsub(0));
+              }
+              acts.push(Act::Emit(1, Ev::n(12)));
+              wd.push(World { srcs: vec![SrcKind::Cold { scripts: vec![first.clone()], polite: true }, k.clone()], acts });
+            }
+          }
+        }
+        let mut pd = vec![];
+        for m in [Op::Merge, Op::Zip, Op::CombineLatest, Op::Amb, Op::Concat] {
+          for x in [None, Some(Op::RefCount), Some(Op::Map(MapF::Inc)), Some(Op::Take(2)), Some(Op::Defer)] {
+            let second = match &x {
+              None => Node::Src(1),
+              Some(o) => Node::op(o.clone(), Node::Src(1)),
+            };
+            pd.push(Node::opx(m.clone(), Node::Src(0), vec![second.clone()]));
+            if let Some(Op::RefCount) = x {
+              pd.push(Node::opx(m.clone(), Node::Src(0), vec![Node::op(Op::Map(MapF::Inc), second.clone())]));
+            }
+          }
+        }
+        fams.push((Family { name: "the second input of a combining operator is subscribed with a subscriber that has already ended".into(), pipelines: pd, worlds: Arc::new(wd), oracles: oracle.clone() }, 2));
+      }
       fams.extend(connectable_families(&w_noend, oracle.clone()));
       fams.extend(self_unsub_families(th, &last_pos, oracle.clone()));
       fams.extend(inner_unsub_families(th, oracle.clone()));
@@ -802,6 +871,24 @@ fn c14_families(th: bool, single: &[Op], last_pos: &[Op]) -> Vec<(Family, usize)
   let mut with_src = vec![Node::Src(0)];
   with_src.extend(depth1(last_pos));
   fams.push((Family { name: "creation functions subscribed 2-3 times, alone and below every operator".into(), pipelines: with_src, worlds: Arc::new(wl), oracles: vec![Oracle::Independence] }, 1));
+  // (a+) one creation-function value feeds two branches of the same pipeline, one of which cuts its run
+  // short: what the other branch (and the next subscription) gets must not depend on how far that one got
+  {
+    let cutters = [Op::Take(1), Op::Take(2), Op::First, Op::ElementAt(2), Op::TakeWhile(Pred::Lt(2)), Op::Skip(1), Op::Last];
+    let mut pp = vec![];
+    for c in cutters.iter() {
+      let cut = Node::op(c.clone(), Node::Src(0));
+      pp.push(Node::opx(Op::Concat, cut.clone(), vec![Node::Src(0)]));
+      pp.push(Node::opx(Op::Concat, Node::Src(0), vec![cut.clone()]));
+      pp.push(Node::opx(Op::Merge, cut.clone(), vec![Node::Src(0)]));
+      pp.push(Node::opx(Op::Zip, cut.clone(), vec![Node::Src(0)]));
+      pp.push(Node::op(Op::Retry(2), Node::opx(Op::Concat, cut.clone(), vec![Node::Src(0)])));
+    }
+    let mut wl2 = lib_worlds(1);
+    wl2.extend(lib_worlds(2));
+    wl2.extend(lib_worlds(3));
+    fams.push((Family { name: "one creation-function value feeds two branches of a pipeline, one cut short; 1-3 subscriptions".into(), pipelines: pp, worlds: Arc::new(wl2), oracles: vec![Oracle::Independence] }, 2));
+  }
   // (a'') nested: the first subscriber's callback subscribes again to the same Observable value
   let mut w_nest = vec![];
   for sc in wf_scripts(&[1, 2], 2, &[Ending::Complete, Ending::Error]) {
@@ -996,9 +1083,11 @@ pub fn c07_slice(r: &mut Report, tier: &str) {
   // callbacks that re-enter the library on the same thread: push into a source the pipeline is fed
   // from (either input of a combining operator), unsubscribe their own subscription, end an inner observable
   for (mut f, d) in feedback_families(th, &last_pos, vec![]).into_iter().chain(self_unsub_families(th, &last_pos, vec![])).chain(inner_unsub_families(th, vec![])) {
-    if f.name.starts_with("user code inside Item::clone") {
-      // C07 speaks of callbacks that re-enter the library; an Item::clone that does is C01's
-      // business only (the contract must survive it), not a promise about the library's locks
+    if f.name.starts_with("user code inside") {
+      // C07 speaks of (notification) callbacks that re-enter the library; an Item::clone or an operator's
+      // function (an accumulator, a predicate, a selector) that does is C01's business only (the contract
+      // must survive it), not a promise about the library's locks: scan and reduce, for one, call the
+      // accumulator inside their read-modify-write section - by design
       continue;
     }
     f.name = format!("monitor slice: {}", f.name);
